@@ -71,14 +71,25 @@ def run(ctx):
                 if exp.shape != y_np.shape or not np.array_equal(exp, y_np):
                     ctx.alarm('correspondence', 'pad_image_for_pyramid differs from the regenerated index model for %dx%d, %d levels' % (h, w, n))
     # ---------------- pooling-size maps and level of detail
-    for _ in range(ctx.n(12, 120)):
-        h, w = rng.choice([(32, 48), (40, 40), (17, 33), (64, 20)])
-        gaze = [rng.random(), rng.random()]
+    aligned = []
+    for (h, w) in [(17, 17), (65, 65), (33, 47), (32, 48), (40, 40), (128, 96)]:
+        for _ in range(ctx.n(3, 12)):          # gaze exactly on a pixel centre (incl. borders and corners): eccentricity 0 at that pixel
+            i, j = rng.choice([0, h - 1, rng.randrange(h)]), rng.choice([0, w - 1, rng.randrange(w)])
+            aligned.append((h, w, [j / (w - 1), i / (h - 1)]))
+        aligned += [(h, w, [0.25, 0.75]), (h, w, [0.5, 0.0]), (h, w, [0.3, 0.7]), (h, w, [1.0, 1.0]), (h, w, [0.0, 0.0])]
+    randoms = [(None, None, None)] * ctx.n(12, 120)
+    for (h_, w_, gaze_) in aligned + randoms:
+        if gaze_ is None:
+            h, w = rng.choice([(32, 48), (40, 40), (17, 33), (64, 20)])
+            gaze = [rng.random(), rng.random()]
+        else:
+            h, w, gaze = h_, w_, gaze_
         alpha = rng.uniform(0.05, 0.6)
         width, dist = rng.uniform(0.1, 0.6), rng.uniform(0.3, 1.2)
         mode = rng.choice(['quadratic', 'linear'])
         rec = {'size': [h, w], 'gaze': gaze, 'alpha': alpha, 'width': width, 'distance': dist, 'mode': mode}
         ctx.case(('lod', h, w, tuple(gaze), mode), True, rec if rng.random() < 0.1 else None)
+        ctx.count('lod/' + ('pixel_aligned_gaze' if gaze_ is not None else 'random_gaze'))
         px = FV.make_pooling_size_map_pixels(gaze, (h, w), alpha, width, dist, mode)
         lod = FV.make_pooling_size_map_lod(gaze, (h, w), alpha, width, dist, mode)
         ecc, dmap = FV.make_eccentricity_distance_maps(gaze, (h, w), width, dist)
@@ -112,7 +123,7 @@ def run(ctx):
     # ---------------- radially varying blur is an averaging operator
     for _ in range(ctx.n(6, 40)):
         h, w = rng.choice([(32, 32), (32, 48), (40, 24), (17, 29)])
-        gaze = [rng.random(), rng.random()]
+        gaze = [rng.random(), rng.random()] if rng.random() < 0.5 else [rng.randrange(w) / (w - 1), rng.randrange(h) / (h - 1)]
         alpha = rng.uniform(0.05, 0.5)
         mode = rng.choice(['quadratic', 'linear'])
         equi = rng.random() < 0.25
